@@ -9,7 +9,6 @@ import (
 
 	"github.com/Vedant9500/WTF/internal/constants"
 	"github.com/Vedant9500/WTF/internal/nlp"
-	"github.com/Vedant9500/WTF/internal/utils"
 )
 
 // SearchResult represents a command with its relevance score
@@ -49,7 +48,7 @@ func (db *Database) SearchWithOptions(query string, options SearchOptions) []Sea
 	}
 
 	queryWords := strings.Fields(strings.ToLower(query))
-	results := make([]SearchResult, 0, utils.Min(len(db.Commands), options.Limit*constants.ResultsBufferMultiplier))
+	results := make([]SearchResult, 0, resultsCapacity(len(db.Commands), options.Limit))
 
 	currentPlatform := getCurrentPlatform()
 
@@ -65,6 +64,16 @@ func (db *Database) SearchWithOptions(query string, options SearchOptions) []Sea
 	return db.sortAndLimitResults(results, options.Limit)
 }
 
+// resultsCapacity is the initial capacity of a result list: a few times the limit, never more than the
+// number of commands. The limit comes from the caller unchecked (wtf pipeline --limit), and the product
+// overflows for huge values, which made make() panic.
+func resultsCapacity(commands, limit int) int {
+	if limit > commands/constants.ResultsBufferMultiplier {
+		return commands
+	}
+	return limit * constants.ResultsBufferMultiplier
+}
+
 // SearchWithPipelineOptions performs search with pipeline-specific enhancements
 // Deprecated: Use SearchUniversal with PipelineOnly=true and PipelineBoost options
 func (db *Database) SearchWithPipelineOptions(query string, options SearchOptions) []SearchResult {
@@ -73,7 +82,7 @@ func (db *Database) SearchWithPipelineOptions(query string, options SearchOption
 	}
 
 	queryWords := strings.Fields(strings.ToLower(query))
-	results := make([]SearchResult, 0, utils.Min(len(db.Commands), options.Limit*constants.ResultsBufferMultiplier))
+	results := make([]SearchResult, 0, resultsCapacity(len(db.Commands), options.Limit))
 
 	for i := range db.Commands {
 		cmd := &db.Commands[i]
